@@ -164,6 +164,16 @@ def h_driver(ctx, driver, N, M, m, kind='vector', smooth=None):
         f = program(algopy, C, mons, kind)
     xs, x = point(ctx, N)
     flat = lambda a: np.asarray(plain(np.asarray(a, dtype=object)), dtype=object)
+    # reading a result must not change it, and can be repeated
+    seedmap = {'jacobian': lambda: UTPM.init_jacobian(x), 'hessian': lambda: UTPM.init_hessian(x)}
+    if driver in seedmap:
+        yy = f(seedmap[driver]())
+        before = plain(yy.data).copy()
+        ex = (lambda: UTPM.extract_jacobian(yy)) if driver == 'jacobian' else (lambda: UTPM.extract_hessian(N, yy))
+        r1 = flat(ex()).copy()
+        r2 = flat(ex())
+        ctx.eq(r2, r1, 'extract_%s twice gives the same' % driver)
+        ctx.eq(plain(yy.data), before, 'extract_%s leaves the propagated polynomial unchanged' % driver)
     if driver == 'jacobian':
         J = flat(UTPM.extract_jacobian(f(UTPM.init_jacobian(x))))
         d1 = get_partials(ctx, f, xs, 1)
@@ -172,7 +182,11 @@ def h_driver(ctx, driver, N, M, m, kind='vector', smooth=None):
         ctx.eq(J.reshape(ref.shape), ref, 'extract_jacobian')
     elif driver == 'jac_vec':
         vs, v = vec(ctx, 'v', N)
-        r = flat(UTPM.extract_jac_vec(f(UTPM.init_jac_vec(x, v))))
+        yy = f(UTPM.init_jac_vec(x, v))
+        before = plain(yy.data).copy()
+        r = flat(UTPM.extract_jac_vec(yy)).copy()
+        ctx.eq(flat(UTPM.extract_jac_vec(yy)), r, 'extract_jac_vec twice gives the same')
+        ctx.eq(plain(yy.data), before, 'extract_jac_vec leaves the propagated polynomial unchanged')
         d1 = get_partials(ctx, f, xs, 1)
         Mo = len(d1[(0,)])
         ref = np.array([sum(d1[(n,)][k] * vs[n] for n in range(N)) for k in range(Mo)], dtype=object)
@@ -184,7 +198,11 @@ def h_driver(ctx, driver, N, M, m, kind='vector', smooth=None):
         ctx.eq(H, ref, 'extract_hessian')
     elif driver == 'hess_vec':
         vs, v = vec(ctx, 'v', N)
-        r = flat(UTPM.extract_hess_vec(N, f(UTPM.init_hess_vec(x, v))))
+        yy = f(UTPM.init_hess_vec(x, v))
+        before = plain(yy.data).copy()
+        r = flat(UTPM.extract_hess_vec(N, yy)).copy()
+        ctx.eq(flat(UTPM.extract_hess_vec(N, yy)), r, 'extract_hess_vec twice gives the same')
+        ctx.eq(plain(yy.data), before, 'extract_hess_vec leaves the propagated polynomial unchanged')
         d2 = get_partials(ctx, f, xs, 2)
         ref = np.array([sum(d2[(min(i, j), max(i, j))][0] * vs[j] for j in range(N)) for i in range(N)], dtype=object)
         ctx.eq(r, ref, 'extract_hess_vec')
@@ -239,6 +257,23 @@ def h_tensor(ctx, N, d, m, full=False):
                     ctx.holds(r >= -tol, 'H[%d,%d] - exact >= -tol' % (i, j))
                 else:
                     ctx.eq(T[i, j], ref, 'H[%d,%d]' % (i, j))
+
+
+def h_tensor_sequence(ctx, pairs):
+    """several tensor extractions in one process, in particular (N,d) pairs with the same
+    number of distinct partial derivatives"""
+    for (N, d) in list(pairs) + list(pairs)[:1]:
+        # distinct variable names per call
+        sub_prefix = 'N%dd%d_' % (N, d)
+        orig = ctx.var
+
+        def pv(name, *a, **k):
+            return orig(sub_prefix + name, *a, **k)
+        ctx.var = pv
+        try:
+            h_tensor(ctx, N, d, d)
+        finally:
+            ctx.var = orig
 
 
 def h_intpoint(ctx, driver, N):
@@ -296,6 +331,8 @@ def units(tier, seed):
     for (N, d) in ([(1, 2), (2, 2), (2, 3), (3, 2), (2, 4)] if tier == 'quick' else
                    [(1, 2), (1, 3), (2, 2), (2, 3), (3, 2), (2, 4), (3, 3), (4, 2), (2, 5), (3, 4)]):
         add('tensor/N%d,d%d' % (N, d), 'h_tensor', o={'validate': False}, N=N, d=d, m=d + 1)
+    for pairs in [[(3, 2), (2, 5)], [(2, 2), (3, 1)], [(2, 3), (4, 1)]]:
+        add('tensor sequence %s' % pairs, 'h_tensor_sequence', o={'validate': False}, pairs=pairs)
     for N in (2, 3):
         add('tensor-as-hessian/N%d' % N, 'h_tensor', o={'validate': False}, N=N, d=2, m=3, full=True)
     return out
